@@ -103,3 +103,22 @@ Theorem C19_lie_pair_refuted :
     node_at (st_fs s) (ds ++ [NStr "notes.txt"%string]) = Some (File (COpaque 7)).
 Proof. exact lie_pair_defeats_rm_retry. Qed.
 Print Assumptions C19_lie_pair_refuted.
+
+(* C19_recover, bounded: with a retry budget of one attempt every single fault aborts the run
+   where it strikes (all 75 calls, every fault kind incl. partial effects); from every such
+   aborted tree of setup M a fault-free repeat with overwrite=True ends in exactly the
+   fault-free tree (default and flat external temp directories). *)
+Theorem C19_recover_M_inside :
+  forallb (fun pos => forallb (fun ft => recover_ok 1 (single pos ft) TInside) all_kinds) (seq 0 130) = true.
+Proof. exact recover_M_inside. Qed.
+Print Assumptions C19_recover_M_inside.
+
+Theorem C19_recover_M_flat :
+  forallb (fun pos => forallb (fun ft => recover_ok 1 (single pos ft) (TExternal [])) all_kinds) (seq 0 130) = true.
+Proof. exact recover_M_flat. Qed.
+Print Assumptions C19_recover_M_flat.
+
+Example C19_recover_M_runs_abort :
+  forallb (fun pos => aborts 1 (single pos FRaise) TInside) (seq 0 75) = true /\
+  forallb (fun pos => aborts 1 (single pos FRaise) (TExternal [])) (seq 0 75) = true.
+Proof. exact aborts_M. Qed.
